@@ -108,6 +108,9 @@ func (eap *EAP) Marshal() ([]byte, error) {
 		eapData = append(eapData, eapTypeData...)
 	}
 
+	if len(eapData) > 0xFFFF {
+		return nil, errors.Errorf("EAP: packet length %d exceeds the 16-bit length field", len(eapData))
+	}
 	binary.BigEndian.PutUint16(eapData[2:4], uint16(len(eapData)))
 
 	return eapData, nil
